@@ -58,7 +58,16 @@ def run(ck):
         for k in range(ncases):
             kind = 'dna' if rng.chance(1, 2) else 'protein'
             big = (k % 15 == 14)
-            if big:
+            diffuse = (k % 30 == 9)
+            if diffuse:
+                # >= 100 records from several unrelated clusters of different lengths: the bisecting k-means has many local optima,
+                # so whatever picks its seeds must depend on the canonical order only (and on nothing like time or addresses)
+                alpha = gen.DNA if kind == 'dna' else gen.PROT
+                roots = [gen.rand_seq(rng, alpha, rng.range(25, 70)) for _ in range(rng.range(5, 9))]
+                n = rng.choice([200, 260, 300])
+                seqs = [gen.mutate(rng, rng.choice(roots), alpha, 35, 10) + ('WKW' if kind == 'protein' else '') for _ in range(n)]
+                fam = 'diffuse>=100'; big = True
+            elif big:
                 n = rng.choice([99, 100, 101, 130])
                 root = gen.rand_seq(rng, gen.DNA if kind == 'dna' else gen.PROT, rng.range(15, 30))
                 seqs = [gen.mutate(rng, root, gen.DNA if kind == 'dna' else gen.PROT, 10, 6) for _ in range(n)]
@@ -100,10 +109,12 @@ def run(ck):
             recs = list(zip(names, seqs))
             ids = []
             orders = []
-            for p in range(3 if not big else 2):
+            for p in range(3 if not big else (5 if fam == 'diffuse>=100' else 2)):
                 order = list(range(len(recs)))
-                if p:
+                if p and not (fam == 'diffuse>=100' and p in (2, 4)):      # the diffuse family also repeats orders: run-to-run determinism
                     rng.shuffle(order)
+                elif fam == 'diffuse>=100' and p == 4:
+                    order = orders[3]
                 if p == 1 and fam == 'late-punct>50':
                     order = list(range(len(recs)))[::-1]
                 orders.append(order)
